@@ -23,7 +23,7 @@ ASSUMPTIONS = ["bit-identity for row perturbation; for permutation / sub-batch r
                "SDE family is compared bitwise there too"]
 REQUIRED_COUNTERS = ["perturb_rows_checked", "permute_runs", "subbatch_runs", "bm_element_checks", "bm_A_checks",
                      "elementwise_bitwise_runs", "bm_large_batch",
-                     "via_adjoint_forward_with_adjoint_adaptive"]
+                     "via_adjoint_forward_with_adjoint_adaptive", "scale_separated_runs", "scale_separated_logqp_rows"]
 THRESHOLDS = {"matmul_rel": 1e-13}
 
 
@@ -75,6 +75,11 @@ def cases(tier, seed):
         for r in range(reps):
             out.append({"key": f"{zoo.cell_name(cell)}-{r}", "kind": "solver", "cell": cell,
                         "rseed": hash((seed, ci, r)) % (2 ** 31), "cost": 2})
+    for ci, cell in enumerate(zoo.matrix()):
+        if cell["noise_type"] == "diagonal":
+            for r in range(1 if tier == "quick" else 10):
+                out.append({"key": f"scales-{zoo.cell_name(cell)}-{r}", "kind": "scales", "cell": cell,
+                            "rseed": hash((seed, 55, ci, r)) % (2 ** 31), "cost": 1})
     nb = 60 if tier == "quick" else 3000
     for i in range(nb):
         out.append({"key": f"bm{i}", "kind": "bm", "rseed": hash((seed, 99, i)) % (2 ** 31)})
@@ -160,6 +165,75 @@ def run_solver(case):
             "sample": {"cell": zoo.cell_name(cell), "B": B, "kept_rows": keep[:6], "elementwise": elementwise}}
 
 
+class LinearDiag(torch.nn.Module):
+    """dy_i = a_i y_i dt + s_i y_i dW_i, prior drift b_i y_i: element-wise and homogeneous, so rows of any magnitude are
+    legal and u = (f - h) / g = (a - b) / s is the same constant for every row (logqp = 1/2 |u|^2 * length)."""
+
+    def __init__(self, d, sde_type):
+        super().__init__()
+        self.noise_type, self.sde_type, self.d, self.m = "diagonal", sde_type, d, d
+        self.a = torch.nn.Parameter(torch.linspace(-0.4, 0.3, d))
+        self.b = torch.nn.Parameter(torch.linspace(0.2, -0.1, d))
+        self.s = torch.nn.Parameter(torch.linspace(0.3, 0.6, d))
+
+    def f(self, t, y):
+        return self.a * y
+
+    def g(self, t, y):
+        return self.s * y
+
+    def h(self, t, y):
+        return self.b * y
+
+
+def run_scales(case):
+    """Rows whose magnitudes differ by many orders (1e-4 ... 1e12): anything normalised, clamped or guarded relative to a
+    batch-wide statistic makes a row depend on the others. With and without logqp; the log-ratio rows are checked too."""
+    import torchsde
+    cell = case["cell"]
+    rng = random.Random(case["rseed"])
+    viol, cnt = [], {}
+    d, B = rng.choice([2, 3]), 5
+    sde = LinearDiag(d, cell["sde_type"])
+    ts = torch.tensor([0.0, 0.25, 0.5])
+    dt = 0.125
+    entropy = rng.randrange(1, 10 ** 9)
+    levy = zoo.levy_for(cell["method"])
+    gen = torch.Generator().manual_seed(case["rseed"])
+    base = torch.rand(B, d, generator=gen) + 0.5
+    scales = torch.tensor([1e-4, 1.0, 1e4, 1e-2, 1e2]).reshape(B, 1)
+    keep = [0, 1, 2]
+    others = [3, 4]
+    ctx = f"cell={zoo.cell_name(cell)} d={d}"
+    for logqp in (False, True):
+        msize = sde.m + (1 if logqp else 0)
+
+        def run(y0):
+            bm = torchsde.BrownianInterval(0.0, 0.5, size=(B, msize), entropy=entropy, levy_area_approximation=levy)
+            with torch.no_grad():
+                out = zoo.solve(cell, sde, y0, ts, dt, bm=bm, logqp=logqp)
+            return out if logqp else (out,)
+        y0 = base * scales
+        y1 = y0.clone()
+        y1[others] = y1[others] * torch.tensor([1e8, 1e-8]).reshape(2, 1)
+        r0, r1 = run(y0), run(y1)
+        cnt["scale_separated_runs"] = cnt.get("scale_separated_runs", 0) + 1
+        for nm, a, b in zip(("ys", "logqp"), r0, r1):
+            if not torch.equal(a[:, keep], b[:, keep]):
+                viol.append({"mechanism": f"row_depends_on_other_rows_magnitude:{nm}",
+                             "detail": f"{ctx} logqp={logqp}: rows {keep} changed by up to "
+                                       f"{float((a[:, keep] - b[:, keep]).abs().max()):.3e} when rows {others} were rescaled"})
+        if logqp:
+            want = 0.5 * float((((sde.a - sde.b) / sde.s) ** 2).sum()) * (ts[1:] - ts[:-1]).unsqueeze(1).expand(-1, B)
+            e = float(((r0[1] - want).abs() / want).max())
+            cnt["scale_separated_logqp_rows"] = B
+            if not e <= 1e-9:
+                viol.append({"mechanism": "logqp_row_wrong_for_scale_separated_batch",
+                             "detail": f"{ctx}: rel err {e:.3e} (rows of magnitude 1e-4 ... 1e4 in one batch)"})
+    return {"violations": viol, "counters": cnt, "max": {}, "nontrivial": True,
+            "sample": {"cell": zoo.cell_name(cell), "d": d, "scales": scales.flatten().tolist()}}
+
+
 def run_bm(case):
     import torchsde
     from .. import bmgen
@@ -242,4 +316,4 @@ def run_bm(case):
 
 
 def run_case(case):
-    return run_solver(case) if case["kind"] == "solver" else run_bm(case)
+    return {"solver": run_solver, "scales": run_scales, "bm": run_bm}[case["kind"]](case)
